@@ -38,11 +38,13 @@ class C19(Prop):
             "variants differing in one label value; describes of registered and of never-registered names, with and "
             "without unit; counter values incl. wrap at 2^64 and absolutes below/above the current value; snapshots "
             "taken on the main thread or on the recorder's own thread; a case is non-trivial if some snapshot has at "
-            "least one entry; distinct = distinct (history, outputs)")
+            "least one entry; distinct = distinct (history, outputs). Plus 6 (thorough: 72) free-running stress rounds "
+            "STRESS <threads> <histograms> <values per thread> <paced snapshots>, see level_note")
     design_ref = "DESIGN.md 4 C19"
     technique = ("Coq proof: refinement of a map-based model of DebuggingRecorder/Snapshotter to declarative per-metric "
                  "functions of the history, for all histories over two recorder instances; differential correspondence "
-                 "against the real DebuggingRecorder installed with with_local_recorder on harness threads")
+                 "against the real DebuggingRecorder installed with with_local_recorder on harness threads; free-running multi-threaded stress "
+                 "(record vs snapshot) judged by exactly-once / bounded-loss")
     level_text = ("Theorems (Coq, all histories of describe/register/update/snapshot operations over two recorder instances, any keys, "
                   "labels, values): the model of DebuggingRecorder (seen/metadata IndexMaps, one registry map per kind keyed by key "
                   "equality class, atomics, bucket as a bag) produces exactly the snapshots given by declarative functions of the "
@@ -52,14 +54,22 @@ class C19(Prop):
                   "exactly one snapshot (the next one) or is still pending; description = latest, unit = latest given; a recorder's "
                   "snapshots depend only on the operations issued to it. The model is tied to /repo by running the real "
                   "DebuggingRecorder and the model on the same generated histories each run (histogram values compared as bags).")
-    level_note = ("Sequential histories only: concurrent updates/snapshots are C05's (bucket) and C04's business; the histogram drain "
-                  "inherits C05's open finding under concurrency. Key equality is modelled as equality of (name, sorted labels); "
-                  "that this is what Key::eq/Hash compute is C03's theorem and is exercised here only for keys whose label names are "
-                  "distinct. The order of histogram values inside one snapshot is not modelled (bag comparison).")
+    level_note = ("The Coq theorems and the differential cases are about SEQUENTIAL histories (operations issued one at a time). Concurrent "
+                  "record-vs-snapshot is covered by test only: a free-running stress engine (real threads, no scheduler; 1-3 recorder threads "
+                  "recording distinct tagged values into 1-2 histograms of one recorder while the main thread takes 20-50 paced snapshots, "
+                  ">= 2.6 million values per quick run) judged by the property: a value shown twice, a value never recorded, or a wrong "
+                  "final counter/gauge is always a violation; values never shown are tolerated only up to recorder threads x histograms x "
+                  "snapshots taken during recording, which is what the open finding C05-late-claim (bucket.rs) can explain, and are then printed "
+                  "as the known finding C19-concurrent-drain-inherits-C05-late-claim; losses above that bound are a violation (a non-atomic "
+                  "data()+clear() drain loses thousands per round against bounds of 21..306). The stress engine samples schedules, it proves "
+                  "nothing. Key equality is modelled as equality of (name, sorted labels); that this is what Key::eq/Hash compute is C03's "
+                  "theorem and is exercised here only for keys whose label names are distinct (or that have at most two labels). The order of "
+                  "histogram values inside one snapshot is not modelled (bag comparison).")
     assumptions = [
         "gauge and histogram values are integer-valued f64 of magnitude < 2^53 (exact; generator keeps |values| <= 2^40 and <= 200 ops), so Z arithmetic stands for f64 arithmetic; no NaN/-0.0/fractions",
         "label names are distinct within a key of three or more labels (for such keys, and for all keys of at most two labels, Key::eq is equality up to label order; repeated label names in longer keys are C03's case)",
-        "operations are issued one at a time (the harness waits for each to complete); no concurrent snapshot/update",
+        "theorems and differential cases: operations are issued one at a time (the harness waits for each to complete); concurrent record/snapshot is only sampled by the free-running stress engine",
+        "stress engine: a loss of at most one in-flight record per recorder thread per drained bucket is attributed to the open finding C05-late-claim",
         "histogram values of one snapshot are compared as a multiset (clear_with yields blocks newest-first)",
         "strings are valid UTF-8 and compared as byte sequences",
     ]
@@ -67,6 +77,81 @@ class C19(Prop):
         "indexmap::IndexMap, hashbrown/std HashMap, crossbeam-epoch inside Registry/AtomicBucket (exercised, modelled as association lists / a bag)",
         "metrics::with_local_recorder / with_recorder dispatch (C01's subject) used to reach the recorder from the harness thread",
     ]
+
+    # ------------------------------------------------------------------ free-running stress
+    STRESS_ROUNDS = [(1, 1, 300000, 30), (2, 2, 200000, 40), (3, 1, 150000, 25), (3, 2, 200000, 50),
+                     (2, 1, 250000, 20), (1, 2, 400000, 35)]
+
+    @staticmethod
+    def judge_stress(line):
+        """-> (violations: list of str, within_bound_losses, fields).  The unchanged code cannot duplicate
+        or invent a value (a block is detached by exactly one successful CAS and read once), and can
+        lose only through C05-late-claim: per drain of one bucket at most the one push each recorder
+        thread has in flight.  bound = recorder threads x histograms x snapshots begun while a
+        recorder thread was still running."""
+        if not line.startswith("stress threads="):
+            return ["stress driver failed: " + line[:300]], 0, {}
+        f = dict(kv.split("=", 1) for kv in line.split()[1:])
+        g = {k: int(v) for k, v in f.items() if v.lstrip("-").isdigit()}
+        bad = []
+        bound = g["threads"] * g["hists"] * g["drains_during"]
+        if g["dups"] > 0:
+            bad.append("%d histogram value(s) shown more than once (each value must appear in exactly one snapshot)" % g["dups"])
+        if g["invented"] > 0:
+            bad.append("%d value(s) shown that were never recorded into that histogram" % g["invented"])
+        if g["never_empty"] > 0:
+            bad.append("histograms still yield values (%d) in the 6th snapshot after all recorders stopped" % g["never_empty"])
+        if g["lost"] > bound:
+            bad.append("%d of %d recorded values were never shown by any snapshot; the inherited C05-late-claim window explains at most "
+                       "%d (= %d recorder threads x %d histograms x %d snapshots taken during recording)"
+                       % (g["lost"], g["recorded"], bound, g["threads"], g["hists"], g["drains_during"]))
+        if f["counter"] != f["counter_expect"]:
+            bad.append("counter shows %s after %s concurrent increments of 1" % (f["counter"], f["counter_expect"]))
+        if f["gauge"] == "-" or float(f["gauge"]) != float(f["gauge_expect"]):
+            bad.append("gauge shows %s after concurrent increments summing to %s" % (f["gauge"], f["gauge_expect"]))
+        return [b for b in bad if b], (g["lost"] if g["lost"] <= bound else 0), g
+
+    def extra_checks(self, ctx):
+        """free-running stress (real threads, no scheduler): recorder threads record distinct tagged values
+        into the histograms of one DebuggingRecorder while the main thread snapshots; judged by the
+        property (no value twice, none invented, counters/gauges exact) with losses tolerated only up
+        to what the open finding C05-late-claim can explain"""
+        from .core import run_impl
+        reps = 1 if ctx["tier"] == "quick" else 12
+        rounds = [r for _ in range(reps) for r in self.STRESS_ROUNDS]
+        lines = ["STRESS %d %d %d %d" % r for r in rounds]
+        rc, outs, err = run_impl(ctx["binpath"], lines, timeout=900)
+        cov = ctx["coverage"]
+        viols, within, recorded, drains, worst, under = [], 0, 0, 0, 0, 0
+        if rc != 0 or len(outs) != len(lines):
+            return [("stress", "stress driver failed (rc=%s, %d lines for %d rounds)" % (rc, len(outs), len(lines)),
+                     dict(command="echo '%s' | .cache/target/release/c19" % lines[0], stderr=err[-500:]))]
+        for ln, o in zip(lines, outs):
+            bad, w, g = self.judge_stress(o)
+            within += w
+            worst = max(worst, w)
+            recorded += g.get("recorded", 0)
+            drains += g.get("drains_during", 0)
+            under += 1 if g.get("paced", 0) < 10 else 0
+            for b in bad:
+                viols.append((ln, o, b))
+        cov["stress_rounds"] = len(lines)
+        cov["stress_values_recorded"] = recorded
+        cov["stress_snapshots_during_recording"] = drains
+        cov["losses_within_late_claim_bound"] = within
+        cov["stress_rounds_with_fewer_than_10_concurrent_snapshots"] = under
+        cov["stress_results"] = outs[:3]
+        if within and not viols:
+            print("KNOWN-FINDING: property=C19 C19-concurrent-drain-inherits-C05-late-claim (concurrent record vs snapshot: inherits "
+                  "C05-late-claim, bounded by recorders x drains; %d of %d values recorded during %d concurrent snapshots were never shown, "
+                  "worst round %d, every round within its bound; no duplicates)" % (within, recorded, drains, worst))
+        if viols:
+            ln, o, b = viols[0]
+            return [("stress", "free-running stress of DebuggingRecorder (recorder threads recording while the main thread snapshots) "
+                     "violated the property: " + b,
+                     dict(command="echo '%s' | .cache/target/release/c19" % ln, observed=[v[1] for v in viols[:5]],
+                          judged=[v[2] for v in viols[:5]]))]
+        return []
 
     # ------------------------------------------------------------------ generator
     def _basekey(self, rng):
